@@ -219,12 +219,14 @@ def cbtf(m, b, k, a, freq, bset, save=None):
 
     pvnz = Omega != 0.0
     if qset.size == 0:
-        accel = a.copy()
-        displ = np.zeros(a.shape, dtype=complex)
-        displ[:, pvnz] = -accel[:, pvnz] / Omega[pvnz] ** 2
+        # `a` (and `frc`) are in b-set order; the returned responses
+        # are in model order, as they are when there is a q-set
+        accel = np.zeros((lt, lenf), dtype=a.dtype)
+        accel[bset] = a
+        displ = np.zeros((lt, lenf), dtype=complex)
+        displ[np.ix_(bset, pvnz)] = -a[:, pvnz] / Omega[pvnz] ** 2
         veloc = 1j * (Omega * displ)
-        bb = np.ix_(bset, bset)  # `a` (and `frc`) are in b-set order
-        frc = m[bb] @ accel + b[bb] @ veloc + k[bb] @ displ
+        frc = m[bset] @ accel + b[bset] @ veloc + k[bset] @ displ
     else:
         tf = None
         if isinstance(save, abc.MutableMapping):
